@@ -82,6 +82,7 @@ type PureFunc struct {
 	Params []Binder
 	Result TypeExpr
 	Body   Expr // nil for uninterpreted (ghost func)
+	Opaque bool // uninterpreted symbol with a definitional axiom (E-matching anchor)
 	Pkg    string
 	File   string
 	Line   int
@@ -118,7 +119,7 @@ func NewContractSet() *ContractSet {
 }
 
 var clauseKeywords = map[string]bool{
-	"func": true, "pure": true, "ghost": true, "axiom": true, "lemma": true,
+	"func": true, "pure": true, "ghost": true, "opaque": true, "axiom": true, "lemma": true,
 	"requires": true, "ensures": true, "modifies": true, "news": true, "loop": true, "calls": true,
 	"call": true, "let": true, "skip": true, "trusted": true, "decreases": true, "package": true, "end": true,
 }
@@ -199,7 +200,7 @@ func (cs *ContractSet) LoadContractFile(path, pkgPath string) error {
 				return fmt.Errorf("%s:%d: skip outside func", path, rc.line)
 			}
 			cur.Skip = append(cur.Skip, strings.Fields(rest)...)
-		case "pure", "ghost":
+		case "pure", "ghost", "opaque":
 			// pure func name(params) T = expr      |   ghost func name(params) T
 			if kw == "pure" && rest == "" {
 				if cur == nil {
@@ -217,6 +218,7 @@ func (cs *ContractSet) LoadContractFile(path, pkgPath string) error {
 				return fmt.Errorf("%s:%d: %v", path, rc.line, err)
 			}
 			pf.Pkg, pf.File, pf.Line = pkgPath, path, rc.line
+			pf.Opaque = kw == "opaque"
 			if kw == "ghost" && pf.Body != nil {
 				return fmt.Errorf("%s:%d: ghost func with body", path, rc.line)
 			}
